@@ -644,6 +644,31 @@ class Real:
             if c is not None:
                 self.keep(c)
             return out
+        if op == "attr":
+            # attr V<b> <name> tup:V<a> | fs:V<a> | nest:V<a>:V<c> | lst:V<a>:V<c> | same:V<c>.<name>
+            b, name, spec = self.pv(toks[1]), toks[2], toks[3].split(":")
+            if spec[0] == "tup":
+                val = (self.pv(spec[1]),)
+            elif spec[0] == "fs":
+                val = frozenset([self.pv(spec[1])])
+            elif spec[0] == "nest":
+                val = (self.pv(spec[1]), (self.pv(spec[2]), 1), "s")
+            elif spec[0] == "lst":
+                val = [self.pv(spec[1]), {"k": self.pv(spec[2])}]
+            else:
+                owner, attr = spec[1].split(".")
+                val = getattr(self.pv(owner), attr)
+            setattr(b, name, val)
+            return "ok"
+        if op == "pktrace":
+            import props_pickle
+            opts = dict(t.split("=") for t in toks[3:])
+            sel = opts.get("root", "all")
+            root = (self.V, self.L, self.W) if sel == "all" else self.V if sel == "verts" else self.V[int(sel[1:])]
+            events, heap, unsupported, _ = props_pickle.spy_dump(root, protocol=int(opts.get("proto", "4")))
+            if unsupported or heap != toks[2]:
+                return "err HeapDiffers"
+            return "ok " + events
         if op == "mut":
             self.mutate_kept(int(toks[1]), int(toks[2]))
             return "ok"
